@@ -729,6 +729,10 @@ C15_NotFreeWhileInUse == (HasPools /\ last.ev = "req") => U4!NotFreeWhileUsed(ta
 C15_NoIdTwiceInPool == HasPools => U4!NoDuplicatesInPools(PoolsOf(snap))
 \* no meter cell has left its pool for the other one (or for good): the plug-in's meter records account for exactly the cells out of each pool
 C15_MeterCellsStayInOwnPool == (HasPools /\ last.ev = "req" /\ NotBurst) => U4!MeterCellsInOwnPool(PoolsOf(snap), AsSet(snap.up4.meters))
+\* a counter cell that a stored PDR of a session refers to is not free (a request that was refused half way must not have given
+\* back what the session still holds: the cell would be handed to another session while this one still uses it)
+C15_CellsOfStoredRulesStayAllocated ==
+  (HasPools /\ last.ev = "req" /\ NotBurst /\ "storedCtr" \in DOMAIN snap.up4) => AsSet(snap.up4.storedCtr) \subseteq PoolsOf(snap).ctrOut
 \* a tunnel peer ID that an entry of the switch still refers to is neither freed nor without its tunnel_peers entry
 C15_PeerIdsInUseStayAllocated == (OnUp4 /\ last.ev = "req") => U4!PeerRefsOK(tables.up4, IF HasPools THEN PoolsOf(snap) ELSE U4!NoPools, HasPools)
 LineOfLast == IF l > 1 /\ l - 1 <= Len(Trace) THEN Trace[l - 1] ELSE [ev |-> "none"]
